@@ -224,7 +224,7 @@ CLAIM = {
     "text": "Decides token injectivity and bookkeeping of subscriptions: given that unsubscribe disconnects every private id of its token, every "
             "return of CallbackRegistry.connect returns an id minted by that call or unsubscribe keeps ids still used by another token (F-6, "
             "fixed in /repo); public tokens are fresh and map to their own ids; per-call / in-plan tokens are recorded and dropped "
-            "at the next call only; unsubscribe_all iterates a copy. Garbage collection of weak callables is not decided.",
+            "at the next call only; unsubscribe_all iterates a copy; subscribe / unsubscribe messages are uncacheable implicit checkpoints (never replayed by a rewind). Garbage collection of weak callables is not decided.",
     "technique": "provenance of returned ids (reaching definitions + dominance by the counter increment); subscribe specialised per case (name == 'all' or not) and its stored ids evaluated; release loop by reaching definitions; ownership",
 }
 
